@@ -52,6 +52,8 @@ def act_sig(pid, st, kind):
         return f"{pid}|{kind}|{a['which']}.{a['how']}|{a['key']}"
     if a['a'] == 'metaassign':
         return f"{pid}|{kind}|{a['which']}=|{a['value']}"
+    if a['a'] == 'copywithdict':
+        return f"{pid}|{kind}|copywithdict|{cls}.{a['which']}|{a['value']}"
     if a['a'] == 'copywith':
         return f"{pid}|{kind}|copywith|{cls}.{a['field']}|{a['value']}"
     return f"{pid}|{kind}|{a['a']}|{cls}"
